@@ -5,7 +5,8 @@ Model of what a member signs (`dosnode/dos_stages.go`): `padOrTrim`,
 
 Numbers are unbounded `Nat` (`*big.Int`, non-negative: they are `uint256`
 event fields); `natBytes` is `big.Int.Bytes()` (minimal big-endian, empty for 0).
-`dataParse` (ajson / xmlquery) is NOT modelled: its result is a parameter.
+The selector engines behind `dataParse` (ajson / xmlquery) are NOT modelled: their result is a
+parameter (the dispatch of `dataParse` around them is in Model/Eval.lean).
 The sizes are parameters here; `Props/C07.lean` instantiates them with the
 constants regenerated from the source (`Gen/DosnodeConsts.lean`).
 -/
@@ -96,12 +97,7 @@ def stepLine (size addrLen : Nat) (line : String) : String :=
     match ofHex c with
     | some c => showStrip (stripResult addrLen c)
     | none => "bad-op"
-  -- query <kind> <parsed|err> <addr> <doc> <selector>: the parse result is an input (external function)
-  | ["query", _, p, a, _, _] =>
-    if p == "err" then "err parse" else if p == "panic" then "panic parse" else
-    match ofHex p, ofHex a with
-    | some p, some a => toHex (queryContent p a)
-    | _, _ => "bad-op"
+  -- `query`, `cq`, `subm`, `grp` lines: Model/Eval.lean (tried first by the driver)
   | ["threshold", n] =>
     match n.toNat? with
     | some n => toString (threshold n)
